@@ -57,7 +57,8 @@ def main():
         K = 4 if tier == "quick" else 12
         chains = [tie_chain(seed, 0).doc(), c16.chain(seed, 2, tier).doc(), scen.rich_chain(seed, long=False).doc(),
                   scen.mixed_chain(seed + 9, name="c01-mixed", blocks=8, pip10=11).doc(),
-                  c07.chain("c01-avg", seed * 31 + 5, 11, 9, 4, "wide").doc()]
+                  c07.chain("c01-avg", seed * 31 + 5, 11, 9, 4, "wide").doc(),
+                  c14.all_assets_chain(seed + 4, name="c01-allassets").doc()]
         if tier != "quick":
             chains += [tie_chain(seed, 1).doc(), c14.chain(seed, 2, tier).doc(), scen.legacy_chain(seed, name="c01-legacy", tip=30).doc()]
         docs, meta = [], {}
@@ -65,6 +66,9 @@ def main():
             for r in range(K):
                 x = copy.deepcopy(d)
                 x["name"] = "%s-r%d" % (d["name"], r)
+                if d["name"] == "c01-allassets" and r in (1, 2):
+                    # ... nor on how old the database file is: its balance table predates the newer asset lists and is migrated at start-up
+                    x["control"] = dict(x.get("control") or {}, legacySchema=["pre-v5", "pre-v4"][r - 1])
                 if r % 2 == 1:
                     # a different process history: the ledger may not depend on when the computing process was started
                     x["control"] = dict(x.get("control") or {}, restarts=[h for h in range(5, x["tip"]) if (h + r // 2) % 3 == 0][:40])
